@@ -19,8 +19,8 @@ from . import common as C
 BOARD_PROPS = ["C01", "C02", "C03", "C04", "C05", "C06", "C08", "C09", "C17", "C18"]
 
 
-def K(family, depth, sub=0, lemmas=0, emit=True):
-    return {"Family": family, "MaxDepth": depth, "Lemmas": lemmas, "Emit": emit, "Sub": sub}
+def K(family, depth, sub=0, lemmas=0, emit=True, san=False):
+    return {"Family": family, "MaxDepth": depth, "Lemmas": lemmas, "Emit": emit, "Sub": sub, "San": san}
 
 
 def sets_for(tier, seed):
@@ -28,14 +28,17 @@ def sets_for(tier, seed):
     s = []
     if tier == "quick":
         s.append(("roots-d2", K("ROOTS", 2, 0, lemmas=1), "bfs", None))
-        s.append(("epw-d", K("EPw", 1, 4, lemmas=1), "bfs", None))
-        s.append(("epb-e", K("EPb", 1, 5, lemmas=1), "bfs", None))
+        s.append(("epw-d", K("EPw", 2, 4, lemmas=1), "bfs", None))
+        s.append(("epb-e", K("EPb", 2, 5, lemmas=1), "bfs", None))
         s.append(("epxw-d", K("EPXw", 1, 4), "bfs", None))
         s.append(("epxb-e", K("EPXb", 1, 5), "bfs", None))
         s.append(("castle-1", K("CASTLE", 1, 1), "bfs", None))
         s.append(("kpk7w-b", K("KPK7w", 1, 2, lemmas=1), "bfs", None))
         s.append(("kpk7b-g", K("KPK7b", 1, 7, lemmas=1), "bfs", None))
         s.append(("kk", K("KK", 999, 0, lemmas=2), "bfs", None))
+        s.append(("pinw-%d" % (seed % 8 + 1), K("PINw", 0, seed % 8 + 1), "bfs", None))
+        s.append(("pinb-%d" % ((seed + 3) % 8 + 1), K("PINb", 0, (seed + 3) % 8 + 1), "bfs", None))
+        s.append(("rand-%d" % seed, K("RAND", 999, 8), "sim", {"num": 100, "depth": 22, "seed": seed}))
         s.append(("sim-%d" % seed, K("ROOTS", 999, 0), "sim", {"num": 24, "depth": 100, "seed": seed}))
         s.append(("lemma2-roots-d1", K("ROOTS", 1, 0, lemmas=2, emit=False), "bfs", None))
     else:
@@ -48,6 +51,10 @@ def sets_for(tier, seed):
         s.append(("epxw", K("EPXw", 2, 0), "bfs", None))
         s.append(("epxb", K("EPXb", 2, 0), "bfs", None))
         s.append(("castle", K("CASTLE", 2, 0), "bfs", None))
+        s.append(("pinw", K("PINw", 1, 0, lemmas=1), "bfs", None))
+        s.append(("pinb", K("PINb", 1, 0, lemmas=1), "bfs", None))
+        s.append(("rand-%d" % seed, K("RAND", 999, 8), "sim", {"num": 1500, "depth": 30, "seed": seed}))
+        s.append(("rand6-%d" % seed, K("RAND", 999, 5), "sim", {"num": 1000, "depth": 40, "seed": seed + 1}))
         s.append(("kpk7w", K("KPK7w", 2, 0, lemmas=1), "bfs", None))
         s.append(("kpk7b", K("KPK7b", 2, 0, lemmas=1), "bfs", None))
         s.append(("sim-%d" % seed, K("ROOTS", 999, 0), "sim", {"num": 400, "depth": 250, "seed": seed}))
